@@ -14,6 +14,9 @@
             abandoned 1 = the caller gives the call up: its context ends after 20..90 ms and the
             request goes to the unit that never answers (so it ends while the caller is queued for
             the client, or waits for the reply; a serial port's Read then really blocks 100 ms)
+            abandoned 2 = NOT abandoned by its caller: the request goes to the unit that answers with
+            an over-long frame (265 bytes); the call has to fail, its caller formats the error while
+            other goroutines are inside Do (several clients at once) -- exercises the race detector
      conns  per connection, in the order they were dialled, [overlaps; midclose; closed; outside]: how often the library entered a call on the
             transport object (Read / Write / Close / Flush / Set*Deadline) while another of its calls
             was inside, and how often Close arrived between the write of a request and the read of
@@ -149,13 +152,15 @@ Definition conc_leftover (kind : N) (w : list N) : list N := snd (conc_split (Li
 
 (* ---- reading the case ---- *)
 Record ccall := { cc_g : nat; cc_k : nat; cc_req : list N; cc_ok : bool; cc_bad : bool; cc_reply : list N;
-                  cc_abandon : bool }.
+                  cc_abandon : bool;       (* may fail although nobody closes: abandoned, or over-long answer *)
+                  cc_gave_up : bool }.     (* abandoned by its caller *)
 
 Definition parse_call (v : val) : option ccall :=
   match v with
   | VL [VI g; VI k; VB req; VI st; VB rep; VI ab] =>
       Some {| cc_g := Z.to_nat g; cc_k := Z.to_nat k; cc_req := req; cc_ok := Z.eqb st 0;
-              cc_bad := Z.leb 2 st; cc_reply := rep; cc_abandon := negb (Z.eqb ab 0) |}
+              cc_bad := Z.leb 2 st; cc_reply := rep; cc_abandon := negb (Z.eqb ab 0);
+              cc_gave_up := Z.eqb ab 1 |}
   | _ => None
   end.
 Fixpoint parse_calls (vs : list val) : option (list ccall) :=
@@ -267,10 +272,13 @@ Definition raw_hooks (kind : N) (hooked : Z) (trace : list val) (calls : list cc
 (* ---- model side ---- *)
 Fixpoint nat_max (l : list nat) : nat := match l with [] => O | x :: r => Nat.max x (nat_max r) end.
 
-(* the unit that is switched off: the transport receives its requests and never answers them *)
+(* units whose requests produce no reply that anybody could take for one: 99 is switched off (the
+   transport receives its requests and never answers), 98 answers with 265 bytes, which the call
+   itself consumes and refuses (too long).  Unit 97 answers normally, only late (the completing Read
+   returns 2 ms after the client's read time-out has elapsed): an ordinary served call. *)
 Definition conc_silent (kind : N) (f : list N) : bool :=
-  if kind =? 0 then match nth_error f 6 with Some u => u =? 99 | None => false end
-  else match f with u :: _ => u =? 99 | [] => false end.
+  if kind =? 0 then match nth_error f 6 with Some u => 98 <=? u | None => false end
+  else match f with u :: _ => 98 <=? u | [] => false end.
 (* what the transport answers, in arrival order *)
 Definition conc_answered (kind : N) (w : list N) : list (list N) :=
   filter (fun f => negb (conc_silent kind f)) (conc_decode kind w).
@@ -374,7 +382,7 @@ Definition run_conc (args : list val) : val :=
    case says that abandoned calls go to a unit that answers, and it has such a call *)
 Definition KF_C14_1 : N := 160.
 Definition in_region_160 (answering : Z) (calls : list ccall) : bool :=
-  negb (Z.eqb answering 0) && existsb cc_abandon calls.
+  negb (Z.eqb answering 0) && existsb cc_gave_up calls.
 (* in the region only the flags own / whole may be false (a later caller consumed the stale reply) *)
 Definition others_true (o : val) : bool :=
   match o with
